@@ -1030,3 +1030,20 @@ def _field0(ev, node):
 @specfn("NextId")
 def _nextid(ev, node):
     return concretize(SInt(ev.heap[ev.e(node.args[0]).oid].next_id))
+
+
+@specfn("SameIndicator")
+def _sameind(ev, node):
+    """same class and the same constructor fields (every dataclass field with init=True)"""
+    a, b = ev.e(node.args[0]), ev.e(node.args[1])
+    pa, pb = ev.heap[a.oid], ev.heap[b.oid]
+    if pa.cls is not pb.cls:
+        return False
+    conds = []
+    for (name, default, init, factory), owner in pa.cls.all_fields():
+        if not init or name == "candles":
+            continue
+        x, y = pa.fields.get(name), pb.fields.get(name)
+        r = vals.py_eq(x, y, ev.heap) if not (x is None and y is None) else True
+        conds.append(zbool(r))
+    return wrap_bool(zand(*conds))
